@@ -117,8 +117,11 @@ static bool read_file(const char *path, std::string &out) {
 // ------------------------------------------------------------------ minimisation
 struct Target { std::string cls, prop; };
 static int g_min_runs = 0, g_min_budget = 1500;
+static double g_min_deadline = 0;
+static double nowsec();
 static bool still_fails(const Plan &p, const Target &t, RunResult *out = nullptr) {
 	g_min_runs++;
+	if (g_min_deadline && nowsec() > g_min_deadline) g_min_runs = g_min_budget; // wall-clock cap on minimisation
 	RunResult r = execute(E, p);
 	bool ok = r.v.set && r.v.cls == t.cls;
 	if (ok && out) *out = r;
@@ -144,6 +147,7 @@ static void ddmin(std::vector<T> &items, F test) {
 static Plan minimise(const Plan &orig, const Target &t) {
 	Plan p = orig;
 	g_min_runs = 0;
+	g_min_deadline = nowsec() + 25;
 	for (int round = 0; round < 3 && g_min_runs < g_min_budget; round++) {
 		size_t before = p.ops.size() + p.sched.size() + p.faults.size();
 		// all faults / all schedule entries gone at once? cheap first tries
@@ -361,6 +365,7 @@ int main(int argc, char **argv) {
 		}
 		size_t o0 = rp.ops.size(), s0 = rp.sched.size(), f0 = rp.faults.size();
 		Plan mp = minimise(rp, tg);
+		g_min_deadline = 0;
 		RunResult mr; if (!still_fails(mp, tg, &mr)) { mp = rp; mr = r3; }
 		char extra[256]; snprintf(extra, sizeof extra, ",\"found_by_seed\":%llu,\"minimised_from\":{\"ops\":%zu,\"sched\":%zu,\"faults\":%zu,\"runs\":%d}", (unsigned long long)seed, o0, s0, f0, g_min_runs);
 		char path[512]; snprintf(path, sizeof path, "%s/viol.%s.w%d.%d.json", outdir.c_str(), r.v.cls.substr(0, r.v.cls.find(':')).c_str(), worker, nviol);
